@@ -4,9 +4,10 @@
 # scratch copy of /verif (/tmp/vcopy, harness go.mod pointed at the worktree) runs the checks. Prints one line per check.
 set -u
 patch=$(readlink -f "$1"); shift
-SR=/tmp/seedrepo; VC=/tmp/vcopy
-if [ ! -d $SR ]; then git -C /repo worktree add -q --detach $SR HEAD || exit 2; fi
-git -C $SR checkout -q --detach $(git -C /repo rev-parse HEAD) && git -C $SR checkout -q -- . && git -C $SR clean -fdq
+# private scratch paths per invocation: several people may run this at the same time
+SR=/tmp/seedrepo-$$; VC=/tmp/vcopy-$$
+git -C /repo worktree add -q --detach $SR HEAD || exit 2
+trap 'git -C /repo worktree remove --force $SR >/dev/null 2>&1; rm -rf $VC' EXIT
 rsync -a --delete --exclude .git --exclude .build --exclude .out --exclude evidence /verif/ $VC/
 mkdir -p $VC/evidence
 sed -i "s#=> /repo#=> $SR#" $VC/harness/go.mod
@@ -25,4 +26,3 @@ for id in "$@"; do
   first=$(echo "$out" | grep -m1 -A1 "^VIOLATION" | tail -1 | cut -c1-300)
   echo "SEEDTEST: check=$id exit=$rc $(echo "$out" | grep -m1 '^TIMING' | sed 's/.*total_s=\([0-9.]*\).*/t=\1s/') $first"
 done
-git -C $SR checkout -q -- . ; git -C $SR clean -fdq
